@@ -845,8 +845,10 @@ def _in_guard(p, f, node, key, recv_src):
 
 @rule('EXC-KEY', 'N', 'constant-key subscripts read dicts that provably contain the key')
 def exc_key(p, res):
+    from .. import shape
     skip_profile = ('state.options', )     # TAB-KEYS-PROFILE decides these
     for f in p.funcs.values():
+        defs = None
         for n in f.body_nodes():
             if not (isinstance(n, ast.Subscript) and isinstance(n.ctx, ast.Load)):
                 continue
@@ -854,8 +856,10 @@ def exc_key(p, res):
             if not isinstance(k, str):
                 continue
             recv = src_of(n.value)
-            if recv in skip_profile and f.module.name.endswith('indent_format'):
-                continue
+            if f.module.name.endswith('indent_format'):
+                defs = shape.defs_of(f.node, params=f.params) if defs is None else defs
+                if src_of(shape.expand(n.value, defs)) in skip_profile:
+                    continue
             ks = dict_keys_of(p, f, n.value)
             if ks is not None and k in ks:
                 res.ok('%s: %s (dict built with that key)' % (f.short, src_of(n)))
